@@ -19,7 +19,7 @@ RULE = (
     "and across sections) and a value seed; documented keys get typed values per section "
     "(ints, floats, date-times, ids from the code tables, lookup codes), pass-through sections "
     "get random identifier keys with free-text values over printable ASCII incl. spaces, '=' and "
-    "'\"'. Malformed variant: a generated non-empty subset of lines is corrupted by an operator "
+    "'\"', some with non-ASCII (UTF-8) letters, symbols and CJK. Malformed variant: a generated non-empty subset of lines is corrupted by an operator "
     "that makes the line unambiguously ungrammatical (no '=\"', junk after the closing quote, "
     "section not 3 letters, no underscore, blank line); every corrupted line is double-checked by "
     "an independent hand-written recogniser. Oracle: model of the documented conversions "
@@ -47,6 +47,7 @@ SECTION_NAMES = {
 }
 IDENT = string.ascii_letters + string.digits + "_"
 FREE = "".join(chr(c) for c in range(0x20, 0x7F))
+NON_ASCII = "\u00e9\u00f8\u00c5\u00df\u00f1\u00b0\u00b5\u221a\u65e5\u672c\u20ac\u0105\u011c\u0145"
 RESAMPLING = {"NN": "nearest-neighbor", "BL": "bilinear", "CC": "cubic convolution"}
 FACILITIES = {
     "SCMO": "spacecraft control mission operation system",
@@ -93,6 +94,10 @@ def free_text(rng, hi=24):
     s = "".join(rng.choice(FREE) for _ in range(n))
     if rng.random() < 0.3:
         s += rng.choice(['"', "=", '="', ' " ', "a=b", '""'])
+    if rng.random() < 0.15:
+        # text beyond ASCII (the file is UTF-8): letters, symbols, CJK; none of them is a line
+        # separator for str.splitlines, but some contain the BYTES 0x85 / 0x1c-0x1e in UTF-8
+        s += "".join(rng.choice(NON_ASCII) for _ in range(rng.randrange(1, 4)))
     return s
 
 
@@ -371,7 +376,17 @@ def run_case(case):
     else:
         from ceos_alos2.summary import open_summary
 
-        group, err = harness.guard(open_summary, {"summary.txt": text.encode()}, "summary.txt")
+        # a real fsspec mapper (as open_alos2 passes it), not a stand-in: the reader may use
+        # any part of the mapper interface
+        import fsspec
+
+        root = f"memory:///vfsummary-{__import__('os').getpid()}"
+        mapper = fsspec.get_mapper(root)
+        mapper["summary.txt"] = text.encode()
+        try:
+            group, err = harness.guard(open_summary, mapper, "summary.txt")
+        finally:
+            del mapper["summary.txt"]
         if err is None and not corrupted:
             return compare_summary(exp, groups_of_hierarchy(group))
     if corrupted:
